@@ -957,7 +957,7 @@ func (p *prop) serve(k *kase, hdrs []hdrField) (string, *obs, error) {
 		if !k.noResample && fcgiCollision(hdrs) {
 			k2 := *k
 			k2.noResample = true
-			for i := 0; i < 160; i++ {
+			for i := 0; i < 128; i++ {
 				if _, o2, err := p.serve(&k2, hdrs); err == nil && o2.env != nil {
 					add(o2.env)
 				}
